@@ -98,6 +98,27 @@ def fam_task(task):
                                   case=_case(scripts, cache, cfg), finding=finding))
             if len(samples) < 2:
                 samples.append(dict(label=label, case=_case(scripts, cache, cfg), impl=iline[:200]))
+            # an embedder may keep ONE dictionary (sigfields + timestamp) for several verifications: after another verification has used it
+            # (one that ends through RETURN) it must come back unchanged, and this scenario must give what it gives with a fresh copy
+            if rng.random() < 0.12 and iline.startswith('verdict') and 'returned' not in cache:
+                import copy as _copy
+                shared = _copy.deepcopy(cache)
+                shared.setdefault('timestamp', tsh.Pins.now)
+                fresh = _copy.deepcopy(shared)
+                snap_ = lambda d_: sorted((repr(k_), type(v_).__name__, repr(v_)) for k_, v_ in d_.items())
+                s0 = snap_(shared)
+                ret_ = bytes([F.opcodes_inverse['OP_RETURN'][0]])
+                tsh.impl_run_auth([b'\x01' + ret_], shared, cfg, share=True)
+                s1 = snap_(shared)
+                r_sh = tsh.impl_run_auth(scripts, shared, cfg, share=True)
+                r_fr = tsh.impl_run_auth(scripts, fresh, cfg)
+                stats['shared-dict-chains'] += 1
+                if s1 != s0:
+                    add_viol(dict(what='%s: a verification changed the caller\'s cache dictionary: %s -> %s' % (label, s0[:5], s1[:5]),
+                                  case=_case([b'\x01' + ret_], cache, cfg), finding=finding))
+                elif r_sh != r_fr and r_sh.startswith('verdict') and r_fr.startswith('verdict'):
+                    add_viol(dict(what='%s: %s with the dictionary an earlier verification had used, %s with a fresh copy of the same values'
+                                       % (label, r_sh[:100], r_fr[:100]), case=_case(scripts, cache, cfg), finding=finding))
     # history independence: the verdict is a function of (scripts, cache, configuration) — the same inputs run again
     # at the end of the task (after everything else this process has executed) must give the same result
     for label, scripts, cache, cfg, first, finding in history:
